@@ -1,7 +1,7 @@
 (** Extraction of the executable C17 model (ExtrOcamlBasic only; Z stays inductive). *)
 From Coq Require Import Extraction ExtrOcamlBasic.
 From AwkV Require Import Layout Valid Types Carry.
-From AwkTypes Require Import Json Forms TypeStr Typing.
+From AwkTypes Require Import Json Forms TypeStr Typing Lark.
 Extraction Language OCaml.
 Extraction "c17model.ml" Z.add Z.mul Z.sub Z.div Z.modulo Z.eqb Z.ltb Z.leb Z.of_nat Z.to_nat Z.opp
   to_list value_eqb valid_b clen type_of crange
@@ -10,4 +10,5 @@ Extraction "c17model.ml" Z.add Z.mul Z.sub Z.div Z.modulo Z.eqb Z.ltb Z.leb Z.of
   f_purelist_depth f_minmax_depth f_branch_depth f_purelist_isregular f_keys f_numfields
   c_purelist_depth c_minmax_depth c_branch_depth c_purelist_isregular c_keys c_numfields np_ok
   type_of_form type_tostring erase item_types type_parse printable dtype_to_name t_string t_bytes t_char t_byte
-  has_typeb leaf_depth_in minmax_ty.
+  has_typeb leaf_depth_in minmax_ty
+  lark_parse_full lark_parse lark_ok.
